@@ -283,6 +283,130 @@ def _validate_batch(ck, todo, tf, cfg):
     return rejected
 
 
+# ------------------------------------------------------------------------------------------------ call interface (PSApi.tla)
+API_SPEC = os.path.join(SPECS, "lex", "MC_PSApi.tla")
+API_CONFIGS = {"quick": [("AlphaApi", 3, (1, 2), 3)],
+               "thorough": [("AlphaApi", 4, (1, 2), 3), ("AlphaApiEsc", 4, (1, 3), 3), ("AlphaApiDict", 3, (1, 2, 64), 3),
+                            ("AlphaApi", 3, (2, 64), 4)]}
+
+
+def api_calls(data, B, log):
+    """performs the logged calls on a real PSBaseParser with BUFSIZ=B -> list of answers (r, pos, tk, v, p1)"""
+    import io
+    from pdfminer.psparser import PSEOF
+    p = lexrun.parser_class(B)(io.BytesIO(data))
+    out = []
+    for a in log:
+        try:
+            if a["k"] == "seek":
+                p.seek(a["q"])
+                out.append(("ok", 0, "", b"", p.bufpos + p.charpos))
+            elif a["k"] == "tok":
+                pos, t = p.nexttoken()
+                k, v = lexrun.project(t)
+                out.append(("token", pos, k, v, None if p.eof else p.bufpos + p.charpos))
+            else:
+                pos, line = p.nextline()
+                out.append(("line", pos, "", line, p.bufpos + p.charpos))
+        except PSEOF:
+            out.append(("PSEOF", 0, "", b"", None))
+        except Exception as e:      # noqa: BLE001 - the answer of the call is the exception
+            out.append((type(e).__name__, 0, "", b"", None))
+    return out
+
+
+def api_model(log):
+    out = []
+    for a in log:
+        v = bytes(a["v"])
+        if a["tk"] == "int":
+            v = int(v)
+        elif a["tk"] == "real":
+            v = float(v)
+        out.append((a["r"], a["pos"] if a["r"] in ("token", "line") else 0, a["tk"], v,
+                    a["p1"] if a["r"] in ("ok", "line", "token") else None))
+    return out
+
+
+def same_answers(x, y):
+    """equal up to read positions that one side does not report (None)"""
+    return len(x) == len(y) and all(a[:4] == b[:4] and (a[4] is None or b[4] is None or a[4] == b[4]) for a, b in zip(x, y))
+
+
+def direction_api(ck, dev):
+    """seek / nexttoken / nextline in every order on one parser (specs/lex/PSApi.tla): every call sequence TLC enumerates is
+    performed on the real parser at the same BUFSIZ and at 4096.  Token answers that depend on the buffer size are C14;
+    everything else this finds (lines, read positions, dependence on earlier calls) is extended coverage."""
+    ext = ck.extra.setdefault("extended_coverage", {})
+    stats = {"sequences": 0, "calls": 0, "model_code_drift": 0, "line_buffer_dependent": 0, "position_buffer_dependent": 0}
+    for (alpha, maxlen, bufs, ncalls) in API_CONFIGS[ck.tier]:
+        cfg = write_cfg(os.path.join(ck.tmp, "c14api_%s_%d_%d.cfg" % (alpha, maxlen, ncalls)),
+                        constants={"Alphabet": "<- " + alpha, "MaxLen": maxlen, "MaxCalls": ncalls,
+                                   "BufSizes": "{" + ",".join(map(str, bufs)) + "}", "Dev": tla_set(dev) if dev else "<- NoDev"},
+                        invariants=["CallsAgreeWithReference", "PositionSane", "LineShape"], properties=["CallProgress"],
+                        constraints=["EmitTerminal"])
+        emit = os.path.join(ck.tmp, "c14api_%s_%d_%d.ndjson" % (alpha, maxlen, ncalls))
+        res = run_tlc(API_SPEC, cfg, emit=emit, coverage=False, timeout=7200)
+        ck.add_tlc(res, "PSApi %s^<=%d x B%s x %d calls" % (alpha, maxlen, list(bufs), ncalls))
+        if not res.ok:
+            raise MachineryError("PSApi.tla violates %s (%s):\n%s" % (res.violated, alpha, res.error_text[:3000]))
+        n = 0
+        kinds = set()
+        refcache = {}
+        with open(emit) as f:
+            for line in f:
+                r = json.loads(line)
+                data, B, log = bytes(r["d"]), r["b"], r["log"]
+                n += 1
+                real = api_calls(data, B, log)
+                rk = (data, tuple((a["k"], a["q"]) for a in log))
+                ref = refcache.get(rk)
+                if ref is None:
+                    if len(refcache) > 200000:
+                        refcache.clear()
+                    ref = refcache[rk] = api_calls(data, 4096, log)
+                model = api_model(log)
+                stats["calls"] += len(log)
+                kinds.update(a["k"] + ":" + a["r"] for a in log)
+                rp = {"data": data, "bufsiz": B, "calls": [(a["k"], a["q"]) for a in log], "observed": repr(real), "reference_4096": repr(ref)}
+                for i, (x, y) in enumerate(zip(real, ref)):
+                    if x[:4] != y[:4]:
+                        if log[i]["k"] == "tok":
+                            ck.violation("buffer-dependent:api", "nexttoken() (call %d of %r on %r) answers %r with BUFSIZ=%d and %r with 4096"
+                                         % (i + 1, rp["calls"], data, x[:4], B, y[:4]), rp)
+                        else:
+                            stats["line_buffer_dependent"] += 1
+                            if stats["line_buffer_dependent"] <= 3:
+                                ck.note("EXTENDED-COVERAGE PSApi: %s (call %d of %r on %r) answers %r with BUFSIZ=%d and %r with 4096"
+                                        % (log[i]["k"], i + 1, rp["calls"], data, x[:4], B, y[:4]))
+                        break
+                    if x[4] is not None and y[4] is not None and x[4] != y[4]:
+                        stats["position_buffer_dependent"] += 1
+                        if stats["position_buffer_dependent"] <= 3:
+                            ck.note("EXTENDED-COVERAGE PSApi: read position after call %d of %r on %r is %r with BUFSIZ=%d and %r with 4096"
+                                    % (i + 1, rp["calls"], data, x[4], B, y[4]))
+                        break
+                if not same_answers(real, model):
+                    stats["model_code_drift"] += 1
+                    if stats["model_code_drift"] <= 5:
+                        ck.note("PSApi model/code drift on %r B=%d calls %r: code %r, model %r" % (data, B, rp["calls"], real, model))
+                nontriv = any(a["r"] in ("token", "line") for a in log) and len(data) > B
+                ck.case(1, ("api", data, B, tuple(rp["calls"])) if nontriv else None)
+                if n % 40000 == 1:
+                    ck.sample({"input": data, "bufsiz": B, "calls": rp["calls"], "answers": repr(real)})
+        os.remove(emit)
+        if n != res.emitted or n == 0:
+            raise MachineryError("PSApi: emitted %d terminal states but replayed %d" % (res.emitted, n))
+        need = {"seek:ok", "tok:token", "tok:PSEOF", "line:line", "line:PSEOF"}
+        if need - kinds:
+            raise MachineryError("vacuous: PSApi answers never seen: %s" % sorted(need - kinds))
+        stats["sequences"] += n
+        ck.replayed += n
+    ext["PSApi"] = stats
+    if stats["model_code_drift"]:
+        ck.note("%d call sequences where the real parser and PSApi.tla disagree (spec/code drift)" % stats["model_code_drift"])
+
+
 def run(ck):
     try:
         _run(ck)
@@ -297,11 +421,15 @@ def _run(ck):
                "configured length x every configured buffer size, each replayed on the real tokenizer together with "
                "BUFSIZ=len+1 and 4096; non-trivial = yields at least one token and is longer than the smallest buffer "
                "(so a refill happens inside it). B: recorded token traces of sample-file windows and 4096-straddling "
-               "inputs at BUFSIZ 1,2,3,5,7,4096; distinct by input.")
+               "inputs at BUFSIZ 1,2,3,5,7,4096; distinct by input. Extended (specs/lex/PSApi.tla): every sequence of up to "
+               "3-4 calls of seek(q)/nexttoken()/nextline() on one parser over every short input, performed on the real parser at "
+               "the same BUFSIZ and at 4096; token answers that depend on BUFSIZ are C14 violations, the rest is reported as "
+               "extended coverage.")
     ck.assumptions = ["byte classes are represented by one member each in the exhaustive enumeration",
                       "python re/bytes semantics as transcribed in PSLexOps.tla"]
     direction_a(ck, dev)
     direction_b(ck, dev)
+    direction_api(ck, dev)
     ck.exhaustive = True
 
 
